@@ -168,7 +168,7 @@ class C11(Check):
         "images are 1x1 cells (pixel loops are covered by C02); frame counts 2-3",
         "PIL operations return new in-memory images; only Image.open results are file-backed",
     ]
-    bounds = {"quick": {"frames": [2]}, "thorough": {"frames": [2, 3]}}
+    bounds = {"quick": {"frames": [2], "repeat_x_cached": [[1, False], [2, True]], "modes": 4}, "thorough": {"frames": [2, 3], "repeat_x_cached": "all four", "modes": 9}}
     max_paths = 300000
 
     def budget(self, tier):
@@ -183,8 +183,8 @@ class C11(Check):
                         if op == "still":
                             out.append({"style": style, "source": source, "op": op, "frames": n, "all_modes": tier != "quick"})
                             continue
-                        for repeat in (1, 2):
-                            for cached in (False, True):
+                        for repeat, cached in (((1, False), (2, True)) if tier == "quick" else ((1, False), (1, True), (2, False), (2, True))):
+                            if True:
                                 out.append({"style": style, "source": source, "op": op, "frames": n, "all_modes": tier != "quick", "repeat": repeat, "cached": cached})
         out.append({"style": "block", "source": "url", "op": "url", "frames": 1})
         return out
@@ -348,9 +348,10 @@ class C11(Check):
         finally:
             sys.stdout = old
         eng.reachable()
-        import gc
+        if op == "iterate":
+            import gc
 
-        gc.collect()
+            gc.collect()
         self.check_resources(eng, world, supplied, op)
         eng.claim("the image's size setting is unchanged", image.size == size0)
         image.close()
